@@ -11,25 +11,94 @@ theorem poolMelSym_ne_poolMelErg : poolMelSym ≠ poolMelErg := by decide
 theorem poolMelSym_ne_poolErgSym : poolMelSym ≠ poolErgSym := by decide
 theorem poolMelErg_ne_poolErgSym : poolMelErg ≠ poolErgSym := by decide
 
-/-! ### `set` only when missing -/
+/-! ### `set` when missing or without liquidity (the step of `create_builtins` since the F23 fix) -/
+
+/-- the pool `create_builtins` leaves under a builtin key, given what was there -/
+def fixedPool : Option PoolState → PoolState
+  | none => builtinDefault
+  | some p => if p.liqs = 0 then builtinDefault else p
 
 /-- the step `create_builtins` applies for each builtin key -/
-def AList.setIfNone {κ ν : Type} [DecidableEq κ] (m : AList κ ν) (k : κ) (v : ν) : AList κ ν :=
-  if (m.get k).isNone then m.set k v else m
+def fixBuiltin (m : AList PoolKey PoolState) (k : PoolKey) : AList PoolKey PoolState :=
+  if builtinMissing m k then m.set k builtinDefault else m
 
-theorem AList.get_setIfNone_self {κ ν : Type} [DecidableEq κ] (m : AList κ ν) (k : κ) (v : ν) :
-    (m.setIfNone k v).get k = some ((m.get k).getD v) := by
-  unfold AList.setIfNone
+theorem builtinMissing_none {m : AList PoolKey PoolState} {k : PoolKey} (h : m.get k = none) :
+    builtinMissing m k = true := by simp [builtinMissing, h]
+
+theorem builtinMissing_some {m : AList PoolKey PoolState} {k : PoolKey} {p : PoolState} (h : m.get k = some p) :
+    builtinMissing m k = decide (p.liqs = 0) := by simp [builtinMissing, h]
+
+/-- a builtin pool is recreated only when it is absent or records no liquidity -/
+theorem builtinMissing_true {m : AList PoolKey PoolState} {k : PoolKey} (h : builtinMissing m k = true) :
+    ((m.get k).map (·.liqs)).getD 0 = 0 := by
+  unfold builtinMissing at h
+  cases e : m.get k with
+  | none => rfl
+  | some p => rw [e] at h; simpa using h
+
+theorem get_fixBuiltin_self (m : AList PoolKey PoolState) (k : PoolKey) :
+    (fixBuiltin m k).get k = some (fixedPool (m.get k)) := by
+  unfold fixBuiltin
   cases h : m.get k with
-  | none => simp [AList.get_set_self]
-  | some q => simp [h]
+  | none => rw [builtinMissing_none h, if_pos rfl, AList.get_set_self]; rfl
+  | some q =>
+    rw [builtinMissing_some h]
+    by_cases hq : q.liqs = 0
+    · rw [if_pos (by simpa using hq), AList.get_set_self]; simp [fixedPool, hq]
+    · rw [if_neg (by simpa using hq), h]; simp [fixedPool, hq]
 
-theorem AList.get_setIfNone_ne {κ ν : Type} [DecidableEq κ] (m : AList κ ν) {k k' : κ} (v : ν)
-    (hne : k' ≠ k) : (m.setIfNone k v).get k' = m.get k' := by
-  unfold AList.setIfNone
+theorem get_fixBuiltin_ne (m : AList PoolKey PoolState) {k k' : PoolKey} (hne : k' ≠ k) :
+    (fixBuiltin m k).get k' = m.get k' := by
+  unfold fixBuiltin
   split
-  · exact AList.get_set_ne m v hne
+  · exact AList.get_set_ne m _ hne
   · rfl
+
+theorem createBuiltins_pools (s : State) : (createBuiltins s).pools =
+    if s.tip902 then fixBuiltin (fixBuiltin (fixBuiltin s.pools poolMelSym) poolMelErg) poolErgSym
+    else fixBuiltin (fixBuiltin s.pools poolMelSym) poolMelErg := by
+  unfold createBuiltins fixBuiltin
+  cases s.tip902 <;> simp
+
+/-- what `create_builtins` leaves under each builtin key (ERG/SYM only once TIP-902 is active): the pool that
+    was there when it records liquidity, the default pool otherwise -/
+theorem createBuiltins_get_fixed (s : State) (k : PoolKey)
+    (hk : k = poolMelSym ∨ k = poolMelErg ∨ (s.tip902 = true ∧ k = poolErgSym)) :
+    (createBuiltins s).pools.get k = some (fixedPool (s.pools.get k)) := by
+  have h12 := poolMelSym_ne_poolMelErg
+  have h13 := poolMelSym_ne_poolErgSym
+  have h23 := poolMelErg_ne_poolErgSym
+  rw [createBuiltins_pools]
+  rcases hk with rfl | rfl | ⟨ht, rfl⟩
+  · split
+    · rw [get_fixBuiltin_ne _ h13, get_fixBuiltin_ne _ h12, get_fixBuiltin_self]
+    · rw [get_fixBuiltin_ne _ h12, get_fixBuiltin_self]
+  · split
+    · rw [get_fixBuiltin_ne _ h23, get_fixBuiltin_self, get_fixBuiltin_ne _ h12.symm]
+    · rw [get_fixBuiltin_self, get_fixBuiltin_ne _ h12.symm]
+  · rw [if_pos ht, get_fixBuiltin_self, get_fixBuiltin_ne _ h23.symm, get_fixBuiltin_ne _ h13.symm]
+
+theorem fixBuiltin_keys_nodup {m : AList PoolKey PoolState} (k : PoolKey) (h : (AList.keys m).Nodup) :
+    (AList.keys (fixBuiltin m k)).Nodup := by
+  unfold fixBuiltin
+  split
+  · exact AList.keys_nodup_set _ _ h
+  · exact h
+
+theorem createBuiltins_keys_nodup (s : State) (h : (AList.keys s.pools).Nodup) :
+    (AList.keys (createBuiltins s).pools).Nodup := by
+  rw [createBuiltins_pools]
+  split
+  · exact fixBuiltin_keys_nodup _ (fixBuiltin_keys_nodup _ (fixBuiltin_keys_nodup _ h))
+  · exact fixBuiltin_keys_nodup _ (fixBuiltin_keys_nodup _ h)
+
+theorem fixedPool_liqs_ne (v : Option PoolState) : (fixedPool v).liqs ≠ 0 := by
+  unfold fixedPool
+  split
+  · decide
+  · split
+    · decide
+    · assumption
 
 /-! ### pools are never deleted -/
 
